@@ -26,6 +26,10 @@ def plan(ctx):
                            bounds={'subs': '0..3', 'container_capacity': 4, 'analyze_type': name}, validate_iters=20000,
                            note='frame contract of work() for analyze_type::' + name))
     qs += traits_plan(ctx)
+    # (c) the keys of the analysis: demangle< Rule >() must be injective on rule types (compile-time output of the real demangle.hpp)
+    nu = ctx.unit('c11_names', cpp=os.path.join(vf.VERIF, 'harness', 'c11_names.cpp'))
+    qs.append(vf.Query('names/injective', nu, os.path.join(vf.VERIF, 'harness', 'c11_names.c'), unwind=162, mem_gb=3,
+                       bounds={'types': 16}, note='demangled names of 16 sibling rule types (with ; , > ] = literals) are pairwise distinct'))
     return qs
 
 
